@@ -147,6 +147,12 @@ def check_state(st, op, before_text, rc, mc):
         flag = flags[i]
         pred = not fs.is_filter_disabled(n)
         wrapped = E.is_wrapped(tops[i])
+        # the API accepts bytes-typed names everywhere: the same questions asked with the UTF-8 bytes of the name
+        nb = n.encode("utf-8")
+        pred_b = not fs.is_filter_disabled(nb)
+        if pred_b != pred or (fs.getfilter(nb) is None) != (fs.getfilter(n) is None):
+            return Failure(PROP, "C12.agree", "%s: filter %r: is_filter_disabled / getfilter answer differently for the bytes form of the name (%r vs %r)" % (
+                label, n, not pred_b, not pred), {})
         if not (flag == pred == (not wrapped)):
             return Failure(PROP, "C12.agree", "%s: filter %r: enabled flag=%r, is_filter_disabled=%r, rendered wrapped in 'if false'=%r" % (
                 label, n, flag, not pred, wrapped), {})
